@@ -267,7 +267,7 @@ def materialize(world, d):
 
 
 def cli_args(d, o, extra=()):
-    args = [common.PY, os.path.join(d, "ztr_run.py"), "--path", d]
+    args = [common.PY, os.path.join(d, "ztr_run.py"), "--path", "." if o.get("relpath") else d]
     if o.get("verbose"):
         args.append("-" + "v" * o["verbose"])
     if o.get("repeat", 1) != 1:
